@@ -77,6 +77,9 @@ func runSysPlug(x *X) {
 		L2 = 1 << 20
 	}
 	level := -1 + c.Intn(11, "level")
+	if c.Intn(3, "level-edge") == 0 {
+		level = []int{-1, 0, 1, 9}[c.Intn(4, "level-edge-value")] // default, none, fastest, best
+	}
 	minSize := []int{0, 1, 64, 256, 1024}[c.Intn(5, "minsize")]
 	ctypes := [][]string{{"text/", "application/json"}, {"application/json"}, {"text/html", "text/css", "application/json", "application/javascript"}}[c.Intn(3, "ctypes")]
 	var chain []config.PluginConfig
@@ -88,7 +91,24 @@ func runSysPlug(x *X) {
 	gzipCfg := config.PluginConfig{Name: "gzip", Config: map[string]interface{}{"level": float64(level), "min_size": float64(minSize), "content_types": cts}}
 	var parts []config.PluginConfig
 	if wantSize {
-		parts = append(parts, sizeCfg)
+		if !wantGzip && c.Intn(3, "two-size-limits") == 0 {
+			// two size_limit entries in one chain (say a global one and a stricter one for this
+			// listener): the stricter limit of each direction is L1 / L2, the other entry is
+			// looser; which entry carries which is drawn, their chain positions too
+			X1, X2 := L1+c.Intn(200, "looser-req"), L2+1+c.Intn(200, "looser-resp")
+			e1 := map[string]interface{}{"max_request_body": L1, "max_response_body": L2}
+			e2 := map[string]interface{}{"max_request_body": X1, "max_response_body": X2}
+			if c.Intn(2, "swap-req") == 1 {
+				e1["max_request_body"], e2["max_request_body"] = X1, L1
+			}
+			if c.Intn(2, "swap-resp") == 1 {
+				e1["max_response_body"], e2["max_response_body"] = X2, L2
+			}
+			parts = append(parts, config.PluginConfig{Name: "size_limit", Config: e1}, config.PluginConfig{Name: "size_limit", Config: e2})
+			x.Probe("two-size-limits-in-chain")
+		} else {
+			parts = append(parts, sizeCfg)
+		}
 	}
 	if wantGzip {
 		parts = append(parts, gzipCfg)
@@ -151,7 +171,17 @@ func runSysPlug(x *X) {
 			ex.chunked = c.Intn(2, "reqchunked") == 1
 			ex.pieces = genPieces(x, len(ex.body), "req")
 		}
+		// now and then a body of hundreds of kilobytes to megabytes (well inside the buffering cap)
+		largeOdds := 25
+		if x.Tier == "thorough" {
+			largeOdds = 10
+		}
+		largeCase := wantGzip && !wantSize && i == 0 && c.Intn(largeOdds, "large-body") == 0
+		largePlain := largeCase && c.Intn(4, "large-plain") != 0 // mostly an ordinary compressible 200
 		m.ae = aes[c.Intn(len(aes), "ae")]
+		if largePlain {
+			m.ae = "gzip"
+		}
 		if m.ae != "" {
 			ex.hdr = append(ex.hdr, hdrKV{"Accept-Encoding", m.ae})
 		}
@@ -160,6 +190,9 @@ func runSysPlug(x *X) {
 		ex.resp = rs
 		rs.status = []int{200, 200, 200, 201, 204, 304, 302, 404, 500, 206}[c.Intn(10, "status")]
 		ct := []string{"text/plain", "application/json", "application/octet-stream", "text/html; charset=utf-8", "image/png", ""}[c.Intn(6, "ctype")]
+		if largePlain {
+			rs.status, ct = 200, "application/json"
+		}
 		if ct != "" && rs.status != 304 {
 			rs.hdr = append(rs.hdr, hdrKV{"Content-Type", ct})
 		}
@@ -205,6 +238,10 @@ func runSysPlug(x *X) {
 			n = 10*1024*1024 - 2 + []int{0, 1, 2, 3, 4, 3, 4, 4096}[c.Intn(8, "cap-delta")]
 			capCase = true
 			x.Probe("around-10MB-cap")
+		}
+		if largeCase && !capCase {
+			n = []int{64 << 10, 256 << 10, 1 << 20, 2 << 20, 4 << 20}[c.Intn(5, "large-size")] + []int{-1, 0, 1, 4096}[c.Intn(4, "large-delta")]
+			x.Probe("large-body")
 		}
 		m.compressible = c.Intn(3, "incompressible") != 0 || capCase
 		m.plain = sizedBody(x, n, m.compressible, "resp")
